@@ -382,3 +382,103 @@ def pair_escapes(body, acq_bb, release_bbs, summ=None, extra_avoid=()):
             out.append(("normal-path", "a non-error path from the acquire at line %s reaches Return without the release: blocks %s" % (acq_t.line, p), p))
             break
     return out
+
+
+# ------------------------------------------------------------------------------------------------
+def enum_switches(prog, body, enum_name):
+    """switches on the discriminant of a place of enum `enum_name`:
+    list of (bb, {variant_name: target_bb}, otherwise_bb, discr_place)"""
+    c = cfg_of(body)
+    d = defs_of(body)
+    variants = prog.enums.get(enum_name, {})
+    out = []
+    for bl in body.blocks:
+        t = bl.term
+        if t.kind != "switch" or bl.idx not in c.reach or bl.cleanup:
+            continue
+        for o in origins(body, d, t.discr):
+            if o.kind == 'op' and o.node.kind == 'discr' and o.node.enum == enum_name:
+                m = {}
+                for v, tgt in t.targets:
+                    m[variants.get(v, "#%s" % v)] = tgt
+                rest = [n for n in variants.values() if n not in m]
+                out.append((bl.idx, m, t.otherwise, rest, o.node.place))
+                break
+    return out
+
+
+def arm_regions(body, sw_bb, targets):
+    """blocks exclusive to each arm of the switch at sw_bb: reachable from that arm's target (not
+    passing the switch again) and from no other arm's target. `targets`: {name: bb}"""
+    c = cfg_of(body)
+    reach = {n: c.reachable_from(t, avoid=[sw_bb]) for n, t in targets.items()}
+    out = {}
+    for n in targets:
+        others = set()
+        for m, r in reach.items():
+            if targets[m] != targets[n]:
+                others |= r
+        out[n] = reach[n] - others
+    return out
+
+
+def switches_on_call(body, callee_suffixes, through_ops=True):
+    """switch blocks whose discriminant originates from a call to one of the callees
+    (by suffix): list of (bb, Term, origin call Term)"""
+    c = cfg_of(body)
+    d = defs_of(body)
+    out = []
+    for bl in body.blocks:
+        t = bl.term
+        if t.kind != "switch" or bl.idx not in c.reach or bl.cleanup:
+            continue
+        for o in origins(body, d, t.discr, through_ops=through_ops):
+            if o.kind == 'call' and any((o.node.best_callee() or "").endswith(s) for s in callee_suffixes):
+                out.append((bl.idx, t, o.node))
+                break
+    return out
+
+
+def switches_on_field(body, field, through_ops=True):
+    c = cfg_of(body)
+    d = defs_of(body)
+    out = []
+    for bl in body.blocks:
+        t = bl.term
+        if t.kind != "switch" or bl.idx not in c.reach or bl.cleanup:
+            continue
+        if any(field in o.field_path() for o in origins(body, d, t.discr, through_ops=through_ops)):
+            out.append((bl.idx, t))
+    return out
+
+
+def bool_edges(t):
+    """(false_target, true_target) of a switch on a bool"""
+    f = [tg for v, tg in t.targets if v == 0]
+    return (f[0] if f else None), t.otherwise
+
+
+def resolve_bool_arm(body, target, max_steps=8):
+    """`matches!(x, P)` lowers to `_t = const true/false` in the arm followed by a switch on `_t`.
+    From an arm target, follow straight-line blocks and resolve that switch with the constant just
+    stored (removes the infeasible cross edge). Returns the resolved successor block."""
+    consts = {}
+    x = target
+    for _ in range(max_steps):
+        bl = body.blocks[x]
+        for st in bl.stmts:
+            if st.kind == 'a' and st.place.is_local() and st.rv.kind == 'use' and st.rv.ops[0].const is not None \
+                    and st.rv.ops[0].const.value is not None:
+                consts[st.place.local] = st.rv.ops[0].const.value
+        t = bl.term
+        if t.kind == "goto":
+            x = t.target
+            continue
+        if t.kind == "switch" and t.discr.place is not None and t.discr.place.is_local() and t.discr.place.local in consts:
+            v = consts[t.discr.place.local]
+            for val, tg in t.targets:
+                if val == v:
+                    return tg
+            return t.otherwise
+        return target
+    return target
